@@ -15,7 +15,8 @@ ATTRS = {"none": None, "np": ("name", "ppid"), "n": {"name"}, "e": ()}          
 
 
 class Cfg:
-    def __init__(self, seed, thorough):
+    def __init__(self, seed, thorough, noctx=False):
+        self.noctx = noctx            # a kernel whose status records lack the context-switch lines: num_ctx_switches() is "not implemented"
         base = 900 + (seed % 9) * 17
         # (B's pid lies above the kernel's DEFAULT pid_max of 32768: pids go up to 4194304 when pid_max is raised)
         self.pid = {"A": base, "B": base + 40005, "C": base + 11}
@@ -36,6 +37,8 @@ class Exec:
         w.spawn(1, ppid=0, comm=b"init", start=1)
         w.spawn(w.mypid, ppid=1, comm=b"caller", start=50)
         self.w = w
+        w.status_noctx = cfg.noctx
+        w.listing_reversed = cfg.noctx          # ... and whose /proc listing does not come in ascending pid order (lxcfs, a FUSE view)
         use_world(w)
         self.modres = ModuleResidue([psutil, psutil._pslinux, psutil._common, psutil._psposix],
                                     known=("_pmap", "_pids_reused", "_LOWEST_PID"))
@@ -93,6 +96,8 @@ class Exec:
         else:
             info = getattr(proc, "info", None)
             want = set(attrs) if len(attrs) else set(self.ps._as_dict_attrnames)      # an empty collection asks for everything
+            if not len(attrs) and self.cfg.noctx:
+                want = want - {"num_ctx_switches"}       # (what the platform does not implement is left out of "everything")
             if not isinstance(info, dict) or set(info) != want:
                 self.viol("info-keys", "%s: pid %d info=%r, requested %r" % (where, proc.pid, info, attrs))
 
@@ -520,7 +525,7 @@ def f_part(ctx):
 
 def run(ctx):
     global _CFG
-    _CFG = Cfg(ctx.seed, ctx.thorough)
+    _CFG = Cfg(ctx.seed, ctx.thorough, noctx=bool(getattr(ctx, 'alt', False)))
     depth = (7 if ctx.thorough else 6) - (2 if ctx.alt else 0)
     roots = [[["spawn", "A"], ["iter", "none"], ["die", "A"], ["spawn", "A"]],      # a cached entry that stands for a previous owner
              # an iteration with attrs under way (pids listed, first one yielded) over a cache that already holds A
@@ -552,7 +557,7 @@ def run(ctx):
 
 def replay(ctx, case):
     global _CFG
-    _CFG = Cfg(ctx.seed, ctx.thorough)
+    _CFG = Cfg(ctx.seed, ctx.thorough, noctx=bool(getattr(ctx, 'alt', False)))
     if case.get("part") == "S":
         from vf.checks import c04s
         return c04s.replay_s(ctx, case)
